@@ -72,3 +72,22 @@ def partitions(n, maxpart=None):
     for k in range(min(n, maxpart), 0, -1):
         for rest in partitions(n - k, k):
             yield (k,) + rest
+
+
+def planted(rng, n, L=12, n_pairs=12, alphabet=AA, tail=400):
+    """n random L-mers (far apart with overwhelming probability) with `n_pairs` planted neighbour pairs whose positions lie
+    in the last `tail` positions (so position products exceed 2^31 for n > 46341). Returns (xs, [(i, j, d)]) with i < j and d = 1."""
+    xs = ["".join(rng.choice(alphabet) for _ in range(L)) for _ in range(n)]
+    pairs = []
+    used = set()
+    while len(pairs) < n_pairs:
+        i = rng.randrange(n - tail, n - 1)
+        j = rng.randrange(i + 1, n)
+        if i in used or j in used:
+            continue
+        used.update((i, j))
+        k = rng.randrange(L)
+        c = rng.choice([a for a in alphabet if a != xs[i][k]])
+        xs[j] = xs[i][:k] + c + xs[i][k + 1:]
+        pairs.append((i, j, 1))
+    return xs, pairs
